@@ -4,7 +4,7 @@ import PynetVerif.Spec.Ps38Fsm
 namespace PynetVerif.Driver
 open PynetVerif.Fsm
 
-def effToSExp : Eff → SExp
+private def effToSExp : Eff → SExp
   | .connect => .sym "connect" | .sendRq => .sym "sendRq" | .sendAc => .sym "sendAc"
   | .sendRj a b c => .list [.sym "sendRj", .nat a, .nat b, .nat c]
   | .sendPdata => .sym "sendPdata" | .sendRelRq => .sym "sendRelRq" | .sendRelRp => .sym "sendRelRp"
@@ -17,7 +17,7 @@ def effToSExp : Eff → SExp
   | .sentinel => .sym "sentinel" | .notifyConnClose => .sym "notifyConnClose" | .kill => .sym "kill"
   | .popPrim => .sym "popPrim" | .popPdu => .sym "popPdu" | .other => .sym "other"
 
-def fsmExpected : List SExp → SExp
+private def fsmExpected : List SExp → SExp
   | [.nat e, .nat s, .sym r, .sym a] =>
     match Spec.Ps38.expected (e, s, r == "T", a == "T") with
     | .invalid => .sym "invalid"
